@@ -7,7 +7,10 @@ PATCH=$(realpath "$1"); shift
 PROPS=${*:-C01 C02 C03 C04 C05 C06 C07 C08 C09 C10 C11 C12 C13 C14 C15 C16 C17 C18 C19 C20}
 SFX=${ISO_SUFFIX:-}; MR=/root/work/mutrepo$SFX; MV=/root/work/mutverif$SFX
 [ -d $MR ] || git -C /repo worktree add --detach $MR HEAD >/dev/null 2>&1
-cd $MR && git checkout -q -- . && git checkout -q --detach "$(git -C /repo rev-parse HEAD)" || exit 2
+REV=$(git -C /repo rev-parse HEAD)
+# a snapshot of /verif is tried against the revision of /repo it was taken for
+[ -n "${VERIF_SRC:-}" ] && [ -f "$VERIF_SRC/.repo_rev" ] && REV=$(cat "$VERIF_SRC/.repo_rev")
+cd $MR && git checkout -q -- . && git checkout -q --detach "$REV" || exit 2
 mkdir -p $MV
 rsync -a --delete --exclude .git --exclude harness/target --exclude harness/Cargo.toml --exclude evidence --exclude replays ${VERIF_SRC:-/verif}/ $MV/
 mkdir -p $MV/evidence $MV/replays
